@@ -150,6 +150,11 @@ type SecureChannel struct {
 	chunks   map[uint32][]*MessageChunk
 	chunksMu sync.Mutex
 
+	// rcvSeq is the sequence number of the last chunk accepted from the peer.
+	// It is only touched by readChunk, i.e. by the single receiving goroutine.
+	rcvSeq    uint32
+	rcvSeqSet bool
+
 	// openingInstance is a temporary var that allows the dispatcher know how to handle a open channel request
 	// note: we only allow a single "open" request in flight at any point in time. The mutex is held for the entire
 	// duration of the "open" request.
@@ -554,7 +559,27 @@ func (s *SecureChannel) readChunk() (*MessageChunk, error) {
 	}
 	m.Data = m.Data[n:]
 
+	if err := s.checkSequenceNumber(m.SequenceHeader.SequenceNumber); err != nil {
+		return nil, err
+	}
+
 	return m, nil
+}
+
+// checkSequenceNumber rejects a verified chunk whose sequence number is not
+// greater than the one of the last accepted chunk: a replayed or re-ordered
+// chunk (OPC UA Part 6, 6.7.2.4). The only permitted decrease is the
+// roll-over: a number of at least MaxUint32-1024 may be followed by one below 1024.
+func (s *SecureChannel) checkSequenceNumber(n uint32) error {
+	if s.rcvSeqSet {
+		last := s.rcvSeq
+		rollover := last >= math.MaxUint32-1024 && n < 1024
+		if n <= last && !rollover {
+			return errors.Errorf("sechan: sequence number %d is not greater than the last received %d: %w", n, last, ua.StatusBadSequenceNumberInvalid)
+		}
+	}
+	s.rcvSeq, s.rcvSeqSet = n, true
+	return nil
 }
 
 // verifyAndDecrypt verifies and optionally decrypts a message. if `instance` is given, then it will only use that
